@@ -24,7 +24,7 @@ mutual
   def leaves : Init → Ty → Nat → List Leaf
     | .arr cs, .array elem _, off => leavesArr cs elem off
     | .struct _ cs, .struct ms _ _, off => leavesMs cs ms off
-    | .union (some k) cs, .union ms _ _, off => leavesNth cs ms k off
+    | .union none (some k) cs, .union ms _ _, off => leavesNth cs ms k off
     | .leaf (some e), .scalar sz kind, off => [.val off sz kind e]
     | _, _, _ => []
   def leavesArr : List Init → Ty → Nat → List Leaf
@@ -50,11 +50,9 @@ def leafOK (sz : Nat) (kind : SKind) (e : Expr) : Bool :=
 /-- `mask` of the bit-field arms: `(1L << bit_width) - 1` -/
 def bfMask (bw : Nat) : Nat := (2 ^ bw - 1) % 18446744073709551616
 
-/-- a bit-field may be initialised by this expression: an integer constant expression; for a `_Bool` bit-field the masked
-    unconverted value must equal the masked converted one (write_gvar_data masks the unconverted value) -/
-def bfOK (kind : SKind) (bw : Nat) (e : Expr) : Bool :=
-  !e.isStruct && e.label.isNone &&
-    (kind == .int || (kind == .bool && decide (u64 e.ival &&& bfMask bw = (if e.nz then 1 else 0) &&& bfMask bw)))
+/-- a bit-field may be initialised by this expression: an integer constant expression -/
+def bfOK (kind : SKind) (e : Expr) : Bool :=
+  !e.isStruct && e.label.isNone && (kind == .int || kind == .bool)
 
 mutual
   /-- the tree has the shape of the (resolved) type and every expression is admissible for its leaf -/
@@ -62,8 +60,8 @@ mutual
     | .arr cs, .array elem n => cs.length == n && fitsArr cs elem
     | .flex, .array _ _ => true
     | .struct none cs, .struct ms _ _ => fitsMs cs ms
-    | .union none cs, .union ms _ _ => fitsNth cs ms 0 && !(hasExprList cs)
-    | .union (some k) cs, .union ms _ _ => fitsNth cs ms k
+    | .union none none cs, .union ms _ _ => fitsNth cs ms 0 && !(hasExprList cs)
+    | .union none (some k) cs, .union ms _ _ => fitsNth cs ms k
     | .leaf none, .scalar _ _ => true
     | .leaf (some e), .scalar sz kind => leafOK sz kind e
     | _, _ => false
@@ -74,9 +72,9 @@ mutual
     | [], [] => true
     | c :: cs, (mi, t) :: ms =>
       (match mi.bf with
-       | some (_, bw) => (match c, t with
+       | some _ => (match c, t with
          | .leaf none, .scalar _ _ => true
-         | .leaf (some e), .scalar _ kind => bfOK kind bw e
+         | .leaf (some e), .scalar _ kind => bfOK kind e
          | _, _ => false)
        | none => fits c t) && fitsMs cs ms
     | _, _ => false
@@ -91,11 +89,11 @@ end
 /-- what `write_gvar_data` does at one leaf -/
 def staticLeaf (im : Image) : Leaf → Except Fail Image
   | .val off sz kind e => writeGvarLeaf e sz kind im off
-  | .bf loc sz _ bo bw e =>
+  | .bf loc sz kind bo bw e =>
     if e.label.isSome then .error (.diag "not a compile-time constant")
     else do
       let oldval ← readBuf im.bytes loc sz
-      let newval := u64 e.ival
+      let newval := if kind = .bool then (if e.nz then 1 else 0) else u64 e.ival
       let mask := (2 ^ bw - 1) % 18446744073709551616
       let combined := oldval ||| (((newval &&& mask) <<< bo) % 18446744073709551616)
       let bytes ← writeBuf im.bytes loc combined sz
@@ -113,8 +111,8 @@ mutual
       simp only [fits] at h
       simp only [writeGvar, leaves]
       exact writeGvarMs_leaves cs ms im off h
-    | .union none cs, .union ms _ _, im, off, _ => by simp only [writeGvar, leaves, List.foldlM_nil]; rfl
-    | .union (some k) cs, .union ms _ _, im, off, h => by
+    | .union none none cs, .union ms _ _, im, off, _ => by simp only [writeGvar, leaves, List.foldlM_nil]; rfl
+    | .union none (some k) cs, .union ms _ _, im, off, h => by
       simp only [fits] at h
       simp only [writeGvar, leaves]
       exact writeGvarNth_leaves cs ms k im off h
@@ -138,14 +136,19 @@ mutual
     | .struct (some _) _, .inc _, _, _, h => by simp [fits] at h
     | .struct (some _) _, .struct _ _ _, _, _, h => by simp [fits] at h
     | .struct (some _) _, .union _ _ _, _, _, h => by simp [fits] at h
-    | .union none _, .scalar _ _, _, _, h => by simp [fits] at h
-    | .union none _, .array _ _, _, _, h => by simp [fits] at h
-    | .union none _, .inc _, _, _, h => by simp [fits] at h
-    | .union none _, .struct _ _ _, _, _, h => by simp [fits] at h
-    | .union (some _) _, .scalar _ _, _, _, h => by simp [fits] at h
-    | .union (some _) _, .array _ _, _, _, h => by simp [fits] at h
-    | .union (some _) _, .inc _, _, _, h => by simp [fits] at h
-    | .union (some _) _, .struct _ _ _, _, _, h => by simp [fits] at h
+    | .union none none _, .scalar _ _, _, _, h => by simp [fits] at h
+    | .union none none _, .array _ _, _, _, h => by simp [fits] at h
+    | .union none none _, .inc _, _, _, h => by simp [fits] at h
+    | .union none none _, .struct _ _ _, _, _, h => by simp [fits] at h
+    | .union none (some _) _, .scalar _ _, _, _, h => by simp [fits] at h
+    | .union none (some _) _, .array _ _, _, _, h => by simp [fits] at h
+    | .union none (some _) _, .inc _, _, _, h => by simp [fits] at h
+    | .union none (some _) _, .struct _ _ _, _, _, h => by simp [fits] at h
+    | .union (some _) _ _, .scalar _ _, _, _, h => by simp [fits] at h
+    | .union (some _) _ _, .array _ _, _, _, h => by simp [fits] at h
+    | .union (some _) _ _, .inc _, _, _, h => by simp [fits] at h
+    | .union (some _) _ _, .struct _ _ _, _, _, h => by simp [fits] at h
+    | .union (some _) _ _, .union _ _ _, _, _, h => by simp [fits] at h
     | .leaf none, .array _ _, _, _, h => by simp [fits] at h
     | .leaf none, .inc _, _, _, h => by simp [fits] at h
     | .leaf none, .struct _ _ _, _, _, h => by simp [fits] at h
@@ -193,8 +196,8 @@ mutual
           · simp only [hl, ↓reduceIte]; rfl
           · simp only [hl, Bool.false_eq_true, ↓reduceIte, bind_assoc, pure_bind]
             congr 1; funext o
-            congr 1; funext b
-            exact writeGvarMs_leaves cs ms _ off h2
+            cases kind <;> simp only [reduceCtorEq, ↓reduceIte] <;>
+              (congr 1; funext b; exact writeGvarMs_leaves cs ms _ off h2)
   theorem writeGvarNth_leaves : ∀ (cs : List Init) (ms : Members) (k : Nat) (im : Image) (off : Nat), fitsNth cs ms k = true →
       writeGvarNth cs ms k im off = (leavesNth cs ms k off).foldlM staticLeaf im
     | c :: _, (mi, t) :: _, 0, im, off, h => by
@@ -260,12 +263,12 @@ mutual
       simp only [hasExpr, Option.isSome_none, Bool.false_or] at hn
       simp only [createLvarInit]
       exact createLvarMs_noExpr cs ms path h hn
-    | .union none cs, .union ms _ _, path, _, h, hn => by
+    | .union none none cs, .union ms _ _, path, _, h, hn => by
       simp only [fits, Bool.and_eq_true] at h
       simp only [hasExpr, Option.isSome_none, Bool.false_or] at hn
       simp only [createLvarInit, Option.getD_none]
       exact createLvarNth_noExpr cs ms 0 path h.1 hn
-    | .union (some k) cs, .union ms _ _, _, _, _, hn => by simp [hasExpr] at hn
+    | .union none (some k) cs, .union ms _ _, _, _, _, hn => by simp [hasExpr] at hn
     | .leaf none, .scalar _ _, _, _, _, _ => by simp [createLvarInit]
     | .leaf (some e), .scalar _ _, _, _, _, hn => by simp [hasExpr] at hn
     | .arr _, .scalar _ _, _, _, h, _ => by simp [fits] at h
@@ -281,10 +284,11 @@ mutual
     | .struct none _, .inc _, _, _, h, _ => by simp [fits] at h
     | .struct none _, .union _ _ _, _, _, h, _ => by simp [fits] at h
     | .struct (some _) _, _, _, _, _, hn => by simp [hasExpr] at hn
-    | .union none _, .scalar _ _, _, _, h, _ => by simp [fits] at h
-    | .union none _, .array _ _, _, _, h, _ => by simp [fits] at h
-    | .union none _, .inc _, _, _, h, _ => by simp [fits] at h
-    | .union none _, .struct _ _ _, _, _, h, _ => by simp [fits] at h
+    | .union (some _) _ _, _, _, _, _, hn => by simp [hasExpr] at hn
+    | .union none none _, .scalar _ _, _, _, h, _ => by simp [fits] at h
+    | .union none none _, .array _ _, _, _, h, _ => by simp [fits] at h
+    | .union none none _, .inc _, _, _, h, _ => by simp [fits] at h
+    | .union none none _, .struct _ _ _, _, _, h, _ => by simp [fits] at h
     | .leaf none, .array _ _, _, _, h, _ => by simp [fits] at h
     | .leaf none, .inc _, _, _, h, _ => by simp [fits] at h
     | .leaf none, .struct _ _ _, _, _, h, _ => by simp [fits] at h
@@ -353,12 +357,12 @@ mutual
       simp only [fits] at h
       simp only [createLvarInit, leaves]
       exact createLvarMs_leaves cs ms path h
-    | .union none cs, .union ms _ _, path, h => by
+    | .union none none cs, .union ms _ _, path, h => by
       simp only [fits, Bool.and_eq_true, Bool.not_eq_true'] at h
       refine ⟨[], ?_, by simp [leaves, SameAs]⟩
       simp only [createLvarInit, Option.getD_none]
       exact createLvarNth_noExpr cs ms 0 path h.1 h.2
-    | .union (some k) cs, .union ms _ _, path, h => by
+    | .union none (some k) cs, .union ms _ _, path, h => by
       simp only [fits] at h
       simp only [createLvarInit, leaves, Option.getD_some]
       exact createLvarNth_leaves cs ms k path h
@@ -383,14 +387,19 @@ mutual
     | .struct (some _) _, .inc _, _, h => by simp [fits] at h
     | .struct (some _) _, .struct _ _ _, _, h => by simp [fits] at h
     | .struct (some _) _, .union _ _ _, _, h => by simp [fits] at h
-    | .union none _, .scalar _ _, _, h => by simp [fits] at h
-    | .union none _, .array _ _, _, h => by simp [fits] at h
-    | .union none _, .inc _, _, h => by simp [fits] at h
-    | .union none _, .struct _ _ _, _, h => by simp [fits] at h
-    | .union (some _) _, .scalar _ _, _, h => by simp [fits] at h
-    | .union (some _) _, .array _ _, _, h => by simp [fits] at h
-    | .union (some _) _, .inc _, _, h => by simp [fits] at h
-    | .union (some _) _, .struct _ _ _, _, h => by simp [fits] at h
+    | .union none none _, .scalar _ _, _, h => by simp [fits] at h
+    | .union none none _, .array _ _, _, h => by simp [fits] at h
+    | .union none none _, .inc _, _, h => by simp [fits] at h
+    | .union none none _, .struct _ _ _, _, h => by simp [fits] at h
+    | .union none (some _) _, .scalar _ _, _, h => by simp [fits] at h
+    | .union none (some _) _, .array _ _, _, h => by simp [fits] at h
+    | .union none (some _) _, .inc _, _, h => by simp [fits] at h
+    | .union none (some _) _, .struct _ _ _, _, h => by simp [fits] at h
+    | .union (some _) _ _, .scalar _ _, _, h => by simp [fits] at h
+    | .union (some _) _ _, .array _ _, _, h => by simp [fits] at h
+    | .union (some _) _ _, .inc _, _, h => by simp [fits] at h
+    | .union (some _) _ _, .struct _ _ _, _, h => by simp [fits] at h
+    | .union (some _) _ _, .union _ _ _, _, h => by simp [fits] at h
     | .leaf none, .array _ _, _, h => by simp [fits] at h
     | .leaf none, .inc _, _, h => by simp [fits] at h
     | .leaf none, .struct _ _ _, _, h => by simp [fits] at h
